@@ -1,28 +1,72 @@
-(* FACS: length field and size of the emitted structure (C02; the FACS has no checksum). *)
+(* FACS: length field and size of the emitted structure (C02; the FACS has no checksum), for every sequence of direct
+   assignments of its public fields. *)
 From Coq Require Import NArith ZArith List Lia Bool Arith.
 From ACPI Require Import Lib.Bytes Lib.Sx Lib.Machine Impl.Checksum Impl.Table Impl.Fields Impl.Run Impl.Facs
-  Spec.Layout Proofs.FixedP.
+  Spec.Layout Proofs.FixedP Proofs.FadtP.
 Import ListNotations.
 Open Scope N_scope.
+
+(* the widths of the 39 fields of FACS *)
+Definition FACS_WIDTHS : list nat := Eval vm_compute in widths facs_new_flds.
+
+Definition FACS_I_LENGTH := 4%nat.
+
+(* the shape every reachable value has: the struct's field widths, `length` still 64 *)
+Definition facs_shape (s : flds) : Prop := widths s = FACS_WIDTHS /\ fget s FACS_I_LENGTH = 64.
 
 Definition facs_good (s : flds) : Prop :=
   field_at (ser_flds s) 4 4 = 64 /\ length (ser_flds s) = 64%nat.
 
+Lemma facs_shape_good s : facs_shape s -> facs_good s.
+Proof.
+  intros [Hw Hl]. split.
+  - assert (Hi : (FACS_I_LENGTH < length s)%nat) by (rewrite <- widths_length, Hw; vm_compute; lia).
+    pose proof (field_at_ser_flds s FACS_I_LENGTH Hi) as H. rewrite Hw, Hl in H.
+    change (wsum (firstn FACS_I_LENGTH FACS_WIDTHS)) with 4%nat in H. change (nth FACS_I_LENGTH FACS_WIDTHS 0%nat) with 4%nat in H.
+    rewrite H. reflexivity.
+  - rewrite length_ser_flds_w, Hw. reflexivity.
+Qed.
+
 Lemma facs_new_flds_good : facs_good facs_new_flds.
 Proof. split; vm_compute; reflexivity. Qed.
 
-Lemma facs_new_good c s : facs_new c = Some s -> facs_good s.
+Lemma facs_new_shape c s : facs_new c = Some s -> facs_shape s.
 Proof.
   unfold facs_new.
   repeat match goal with |- (match ?x with _ => _ end) = Some _ -> _ => destruct x; try discriminate end.
-  intros [= <-]. exact facs_new_flds_good.
+  intros [= <-]. split; reflexivity.
 Qed.
 
-(* every sequence of operations the model accepts (there is no mutating operation) *)
+Lemma facs_new_good c s : facs_new c = Some s -> facs_good s.
+Proof. intros H. apply facs_shape_good. eapply facs_new_shape; eauto. Qed.
+
+(* no assignable field is `length` *)
+Lemma facs_assignable_spec : forall n i w, nth_error FACS_ASSIGNABLE n = Some (i, w) -> i <> FACS_I_LENGTH.
+Proof.
+  intros n.
+  do 7 (destruct n as [|n]; [cbn [nth_error FACS_ASSIGNABLE]; intros i w Hn; inversion Hn; subst i w; discriminate|]).
+  intros i w Hn. destruct n; discriminate Hn.
+Qed.
+
+Lemma facs_step_shape md s o s' e : facs_shape s -> facs_step md s o = Some (s', e) -> facs_shape s'.
+Proof.
+  intros [Hw Hl] H. unfold facs_step in H.
+  repeat match type of H with
+         | match ?x with _ => _ end = Some _ => destruct x; try discriminate
+         end.
+  match type of H with option_bind (facs_assign_m ?a ?k ?v) _ = _ => destruct (facs_assign_m a k v) as [s1|] eqn:Ea; [|discriminate] end.
+  cbn [option_bind] in H. inversion H; subst s1 e; clear H.
+  unfold facs_assign_m in Ea. destruct (nth_error FACS_ASSIGNABLE _) as [[i w]|] eqn:En; [|discriminate].
+  inversion Ea; subst s'; clear Ea. pose proof (facs_assignable_spec _ _ _ En) as Hi.
+  split; [now rewrite widths_fset|]. rewrite fget_fset_other by exact Hi. exact Hl.
+Qed.
+
+(* every sequence of operations the model accepts (assignments of the public fields) *)
 Theorem facs_len md c ops s0 s :
   facs_new c = Some s0 -> run_steps (facs_step md) s0 ops = Some s ->
   field_at (ser_flds s) 4 4 = 64 /\ length (ser_flds s) = 64%nat.
 Proof.
-  intros Hn Hr. apply (run_steps_inv (facs_step md) facs_good) with (ops := ops) (s := s0); [|eapply facs_new_good; eauto|exact Hr].
-  intros x o x' e _ H. discriminate H.
+  intros Hn Hr. apply facs_shape_good.
+  apply (run_steps_inv (facs_step md) facs_shape) with (ops := ops) (s := s0); [|eapply facs_new_shape; eauto|exact Hr].
+  intros x o x' e Hx H. eapply facs_step_shape; eauto.
 Qed.
